@@ -205,8 +205,14 @@ struct Case {
     // without an abort-capable executor (no conflict detection, or one thread)
     // pushes may reach the worklist while the operator is still running
     // (fast push-back); the attempt cannot abort, so it is committed on entry
-    if (!cdActive)
+    uint64_t entryTicket = 0;
+    if (!cdActive) {
       pi.commitTag.store(tag, std::memory_order_relaxed);
+      if (recordLevels) {
+        entryTicket = ticket();
+        pi.commitTicket.store(entryTicket, std::memory_order_relaxed);
+      }
+    }
     // C02(c): nothing acquired by the previous attempt on this thread may still be ours
     if (cdActive) {
       for (unsigned j = 0; j < tl.nPrev; ++j)
@@ -312,7 +318,7 @@ struct Case {
         }
     }
     tl.commits.push_back(Commit{tk, it.id});
-    if (recordLevels)
+    if (recordLevels && cdActive)
       pi.commitTicket.store(tk, std::memory_order_relaxed);
     pi.commitTag.store(tag, std::memory_order_relaxed);
     pi.commits.fetch_add(1, std::memory_order_relaxed);
